@@ -38,7 +38,7 @@ func (e *Engine) snapshot(st *State, v Val) Val {
 				content = StructV{Typ: stt, F: make([]Val, stt.NumFields()), Sym: x.Name}
 			}
 		}
-		return SnapPtr{Nil: x.Nil, Content: content, Cell: c, ElemT: x.Elem}
+		return SnapPtr{Nil: x.Nil, Content: content, Cell: c, ElemT: x.Elem, Name: x.Name}
 	case OptV:
 		if x.Cell != nil {
 			return OptV{Nil: x.Nil, V: e.optSnapshot(x, st), Elem: x.Elem}
@@ -196,6 +196,15 @@ func (e *Engine) builtin(f *frame, st *State, callee *ssa.Builtin, cc *ssa.CallC
 			return IntV{"(str.len " + sv.T + ")"}, st, reach
 		case ArrPtrV:
 			return IntV{e.lit(sv.N)}, st, reach
+		case OpaqueV:
+			// len of a map / channel: a function of its identity (maps are not updated where this matters: see maps.go)
+			if callee.Name() == "len" && !e.bv() {
+				e.declUF("uf_len", "(U) Int")
+				n := "(uf_len " + sv.T + ")"
+				e.fact("(>= " + n + " 0)")
+				e.fact(imp(eq(sv.T, "nilU"), eq(n, "0")))
+				return IntV{n}, st, reach
+			}
 		}
 		n := e.fresh(callee.Name(), e.idxSort())
 		if !e.bv() {
